@@ -12,7 +12,7 @@
     * static_frame/core/index.py        `Index.equals`                  (Idx.equals)
     * static_frame/core/index_level.py  `IndexLevel.equals`             (Level.equals, stack walk)
     * static_frame/core/index_hierarchy.py `IndexHierarchy.equals`     (IH.equals)
-    * static_frame/core/series.py       `Series.equals`, `SeriesHE.__eq__/__ne__/__hash__`
+    * static_frame/core/series.py       `Series.equals`, `SeriesHE.__eq__/__ne__/__hash__` (hash of the labels, 7f42cd3)
     * static_frame/core/frame.py        `Frame.equals`,  `FrameHE.__eq__/__ne__/__hash__`
     * static_frame/core/bus.py          `Bus.equals`
 
@@ -318,6 +318,7 @@ def tbEquals {δ α} [DecidableEq δ] (veq : α → α → Bool) (a b : TB δ (C
     (resolved : δ) (coerce : Cell α → Cell α := id) : Bool :=
   if a.shape != b.shape then false
   else if o.compareDtype && a.dtypes != b.dtypes then false
+  else if a.blocks.isEmpty then true   -- `if not self._blocks: return True` (equal shapes, no column)
   else match binop (Cell.rawEq veq) a b resolved resolved coerce coerce with
     | none => false
     | some eq =>
@@ -386,24 +387,25 @@ def Frame.heNe (veq : α → α → Bool) (a b : Frame ν δ κ α) (resolved : 
     (coerce : Cell α → Cell α := id) : Bool :=
   !(a.heEq veq b resolved coerce)
 
-/-- `tuple(index.values)` handed to `hash`: the per-label hashes of a flat index; for an
+/-- PINNED-TREE BEHAVIOUR (repaired in /repo commit 7f42cd3; kept for the historical counterexample only).
+    `tuple(index.values)` handed to `hash`: the per-label hashes of a flat index; for an
     IndexHierarchy `.values` is 2-D, the tuple holds arrays and `hash` raises TypeError. -/
-def Axis.hashKey {η} (h : Cell α → η) : Axis ν δ κ α → Except Err (List η)
+def Axis.hashKeyPinned {η} (h : Cell α → η) : Axis ν δ κ α → Except Err (List η)
   | .flat i => .ok (i.labels.map h)
   | .hier _ => .error .value
 
-/-- `SeriesHE.__hash__`: `hash(tuple(self.index.values))`; `mix` is Python's tuple hash. -/
-def Series.heHash {η} (h : Cell α → η) (mix : List η → η) (a : Series ν δ κ α) : Except Err η :=
-  match a.index.hashKey h with
+/-- pinned tree, before 7f42cd3: `SeriesHE.__hash__`: `hash(tuple(self.index.values))`; `mix` is Python's tuple hash. -/
+def Series.heHashPinned {η} (h : Cell α → η) (mix : List η → η) (a : Series ν δ κ α) : Except Err η :=
+  match a.index.hashKeyPinned h with
   | .ok k => .ok (mix k)
   | .error e => .error e
 
-/-- `FrameHE.__hash__`: `hash((tuple(self.index.values), tuple(self.columns.values)))` -/
-def Frame.heHash {η} (h : Cell α → η) (mix : List η → η) (a : Frame ν δ κ α) : Except Err η :=
-  match a.index.hashKey h with
+/-- pinned tree, before 7f42cd3: `FrameHE.__hash__`: `hash((tuple(self.index.values), tuple(self.columns.values)))` -/
+def Frame.heHashPinned {η} (h : Cell α → η) (mix : List η → η) (a : Frame ν δ κ α) : Except Err η :=
+  match a.index.hashKeyPinned h with
   | .error e => .error e
   | .ok ki =>
-    match a.columns.hashKey h with
+    match a.columns.hashKeyPinned h with
     | .error e => .error e
     | .ok kc => .ok (mix [mix ki, mix kc])
 
@@ -467,6 +469,20 @@ def Level.rowsZip : List (Cell α) → List (Level ν δ κ α) → List (List (
   | x :: xs, t :: ts => (Level.rowsOf t).map (x :: ·) ++ Level.rowsZip xs ts
   | _, _ => []
 end
+
+/-- `tuple(index)` handed to `hash` (since commit 7f42cd3): one hash per label; a label of an
+    IndexHierarchy is the tuple of its parts (hashed with Python's tuple hash `mix`). -/
+def Axis.labelHashes {η : Type} (h : Cell α → η) (mix : List η → η) : Axis ν δ κ α → List η
+  | .flat i => i.labels.map h
+  | .hier x => (Level.rowsOf x.levels).map fun r => mix (r.map h)
+
+/-- `SeriesHE.__hash__`: `hash(tuple(self.index))` -/
+def Series.heHash {η : Type} (h : Cell α → η) (mix : List η → η) (a : Series ν δ κ α) : η :=
+  mix (a.index.labelHashes h mix)
+
+/-- `FrameHE.__hash__`: `hash((tuple(self.index), tuple(self.columns)))` -/
+def Frame.heHash {η : Type} (h : Cell α → η) (mix : List η → η) (a : Frame ν δ κ α) : η :=
+  mix [mix (a.index.labelHashes h mix), mix (a.columns.labelHashes h mix)]
 
 def IH.Spec (veq : α → α → Bool) (o : Opts) (a b : IH ν δ κ α) : Prop :=
   a.shape = b.shape ∧ Level.Eqv veq o a.levels b.levels ∧
